@@ -42,6 +42,7 @@ type spec struct {
 	Depth   int               `json:"depth"`
 	Track   []string          `json:"track"` // field names whose users are listed (e.g. schedState)
 	Reads   []string          `json:"reads"` // field names whose READS are emitted as "rd:<path>" tokens
+	ScanDir string            `json:"scan_dir"` // package dir: names called anywhere in its non-test files are listed
 }
 
 type fkey struct{ recv, name string }
@@ -537,7 +538,41 @@ func main() {
 		w.block(funcs[k].Body.List, &out)
 	}
 	sp.Depth = saveDepth
+	called := map[string]bool{}
+	if sp.ScanDir != "" {
+		ents, _ := os.ReadDir(filepath.Join(*repo, sp.ScanDir))
+		for _, e := range ents {
+			n := e.Name()
+			if e.IsDir() || !strings.HasSuffix(n, ".go") || strings.HasSuffix(n, "_test.go") {
+				continue
+			}
+			af, err := parser.ParseFile(token.NewFileSet(), filepath.Join(*repo, sp.ScanDir, n), nil, 0)
+			if err != nil {
+				continue
+			}
+			ast.Inspect(af, func(nd ast.Node) bool {
+				if c, ok := nd.(*ast.CallExpr); ok {
+					switch f := c.Fun.(type) {
+					case *ast.Ident:
+						called[f.Name] = true
+					case *ast.SelectorExpr:
+						called[f.Sel.Name] = true
+					}
+				}
+				// method values / function values passed around
+				if se, ok := nd.(*ast.SelectorExpr); ok {
+					_ = se
+				}
+				return true
+			})
+		}
+	}
+	var calledList []string
+	for k := range called {
+		calledList = append(calledList, k)
+	}
+	sort.Strings(calledList)
 	enc := json.NewEncoder(os.Stdout)
 	enc.SetIndent("", " ")
-	enc.Encode(map[string]any{"entries": res, "users": users, "visited": vis})
+	enc.Encode(map[string]any{"entries": res, "users": users, "visited": vis, "called": calledList})
 }
